@@ -321,3 +321,81 @@ TRUSTED_COMMON = [
     "(ExtrOcamlBasic only; no Extract Constant) and the Rust harness on the same generated cases",
     "OCaml driver (parsing/printing glue), Rust harness (harness/src), Python generators and differ (gen/)",
 ]
+
+
+# ----------------------------------------------------------------------------------------
+# the codec stream: structured cases through harness and model
+
+def codec_line(c, val=None):
+    if c["cmd"] == "dec":
+        return f"dec {c['ty']} {c['hex']}"
+    v = val if val is not None else c["val"]
+    if c["cmd"] == "enc":
+        return f"enc {c['ty']} {v}"
+    return f"rt {c['ty']} {v} {c.get('sfx', '-')}"
+
+
+def _run_codec_side(exe, cases, lines, wd, tag, shards, timeout, env=None):
+    """cases[i] has key 'env' (string); lines[i] is its case line. Shards keep E lines right."""
+    n = len(cases)
+    if n == 0:
+        return []
+    shards = max(1, min(shards, (n + 99) // 100))
+    size = (n + shards - 1) // shards
+    procs = []
+    e = dict(os.environ)
+    e.update({"TZ": "UTC"})
+    if env:
+        e.update(env)
+    for i in range(shards):
+        lo, hi = i * size, min(n, (i + 1) * size)
+        if lo >= hi:
+            continue
+        path = os.path.join(wd, f"{tag}.{i}.cases")
+        cur = None
+        k = 0
+        with open(path, "w") as f:
+            for j in range(lo, hi):
+                if cases[j]["env"] != cur:
+                    cur = cases[j]["env"]
+                    f.write(f"E {cur}\n")
+                    k += 1
+                f.write(lines[j] + "\n")
+                k += 1
+        outp = os.path.join(wd, f"{tag}.{i}.out")
+        fo = open(outp, "w")
+        procs.append((subprocess.Popen([exe, "codec", path], stdout=fo, stderr=subprocess.PIPE, env=e, text=True),
+                      fo, outp, k))
+    out = []
+    t0 = time.time()
+    for p, fo, outp, k in procs:
+        try:
+            _, err = p.communicate(timeout=max(1, timeout - (time.time() - t0)))
+        except subprocess.TimeoutExpired:
+            p.kill()
+            raise Undecided(f"{exe} codec timed out ({tag})")
+        fo.close()
+        got = open(outp).read().splitlines()
+        if p.returncode != 0 or len(got) != k:
+            raise Undecided(f"{exe} codec ({tag}): exit {p.returncode}, {len(got)}/{k} lines\n{(err or '')[-2000:]}")
+        out.extend(l for l in got if l != "env")
+    if len(out) != n:
+        raise Undecided(f"{exe} codec ({tag}): {len(out)} results for {n} cases")
+    return out
+
+
+def run_codec(harness, model, cases, wd, tag, shards=16, timeout=3000, profile_env=None):
+    """Run structured codec cases through the implementation, then through the model (with the
+    iteration order the implementation reported for sets and maps). Returns (impl, model) lists."""
+    lines = [codec_line(c) for c in cases]
+    impl = _run_codec_side(harness, cases, lines, wd, tag + ".impl", shards, timeout, profile_env)
+    mlines = []
+    for c, l, o in zip(cases, lines, impl):
+        if c["cmd"] != "dec" and c.get("unordered") and o.startswith("ok "):
+            head = o.split(" ; ")[0]
+            parts = head.split(" ", 2)
+            if len(parts) == 3:
+                l = codec_line(c, parts[2])
+        mlines.append(l)
+    mod = _run_codec_side(model, cases, mlines, wd, tag + ".model", shards, timeout)
+    return impl, mod
